@@ -105,6 +105,11 @@ type Cfg struct {
 	Ads        [][]AdItem `json:"advertisements,omitempty"`
 	Sels       []Sel      `json:"selections,omitempty"`
 	SkipHeader int        `json:"peer_skips_header_at,omitempty"` // k>0: the peer omits its k-th restart header
+	// SkipForm: what the peer sends where the omitted header would have been:
+	// "" nothing; "framing-close" / "framing-other" (WebSocket framing) an
+	// element of the framing namespace that is not <open/>, carrying the
+	// attributes of a header.  Such an element is not a stream header.
+	SkipForm string `json:"peer_sends_instead_of_header,omitempty"`
 	Reps       int        `json:"repetitions"`
 	Tee        bool       `json:"tee,omitempty"` // StreamConfig.TeeIn/TeeOut are set
 	Dyn        bool       `json:"dynamic_config,omitempty"`
@@ -263,6 +268,10 @@ func genSession(r *rand.Rand, role string, ws, tee bool, feats []Feat) *Cfg {
 		if r.Intn(25) == 0 {
 			c.SkipHeader = 1 + r.Intn(2)
 		}
+		if c.WS && r.Intn(10) == 0 {
+			c.SkipHeader = 1 + r.Intn(2)
+			c.SkipForm = []string{"framing-close", "framing-other"}[r.Intn(2)]
+		}
 		return c
 	}
 	for i, m := 0, 1+r.Intn(5); i < m; i++ {
@@ -296,6 +305,10 @@ func genSession(r *rand.Rand, role string, ws, tee bool, feats []Feat) *Cfg {
 	}
 	if r.Intn(25) == 0 {
 		c.SkipHeader = 1 + r.Intn(2)
+	}
+	if c.WS && r.Intn(10) == 0 {
+		c.SkipHeader = 1 + r.Intn(2)
+		c.SkipForm = []string{"framing-close", "framing-other"}[r.Intn(2)]
 	}
 	return c
 }
@@ -497,6 +510,7 @@ type exec struct {
 	negotiated     map[string]bool  // on the current stream
 	restartPending bool
 	peerHdrSince   bool // receiver: the peer has sent a header since the pending restart
+	peerHdrMissing bool // the peer omitted a restart header (or sent something else in its place)
 	hdrOutSince    bool // initiator: the library wrote a header since the last script call
 	prev           uint8
 	model          uint8  // initial state | masks returned by successful Negotiate calls
@@ -595,6 +609,7 @@ func (e *exec) pendingMandatory(st uint8, except *Feat) []string {
 }
 
 func (e *exec) callbackDuringRestart(what string, f *Feat) {
+	e.wentOnWithoutPeerHeader(what + "(" + f.Local + ") ran")
 	if e.restartPending {
 		e.violate(6, "callback-before-header", "%s(%s) ran after a Negotiate returned a new ReadWriter and before a fresh stream header was written", what, f.Local)
 	}
@@ -1017,6 +1032,7 @@ func (e *exec) onHeaderOut() {
 
 // onFeaturesOut implements rule 8 (first half) and rule 6 for the receiver.
 func (e *exec) onFeaturesOut(names []xml.Name) {
+	e.wentOnWithoutPeerHeader("the library wrote a features list")
 	st := e.sample("features-out")
 	if e.cfg.Role != "receiver" {
 		e.c.Count("other_elements_written", 1)
@@ -1102,6 +1118,30 @@ func (e *exec) peerHeader() string {
 	return "<?xml version='1.0'?><stream:stream xmlns='" + ns + "' xmlns:stream='" + nsStream + "'" + attrs + ">"
 }
 
+// notAHeader is what the peer sends in place of an omitted restart header.
+func (e *exec) notAHeader() string {
+	if e.cfg.SkipForm == "" || !e.cfg.WS {
+		return ""
+	}
+	h := e.peerHeader() // <open xmlns=framing attrs/>
+	e.nPeerHdr--
+	local := "close"
+	if e.cfg.SkipForm == "framing-other" {
+		local = "opening"
+	}
+	e.c.Count("peer_sent_framing_element_in_place_of_header", 1)
+	return strings.Replace(h, "<open ", "<"+local+" ", 1)
+}
+
+// wentOnWithoutPeerHeader: the peer omitted a restart header (or sent
+// something else in its place) and the library negotiates on regardless.
+func (e *exec) wentOnWithoutPeerHeader(what string) {
+	if e.peerHdrMissing {
+		e.peerHdrMissing = false
+		e.violate(6, "went-on-without-peer-header", "%s although the peer had not sent the stream header of the restarted stream (it sent %q in its place)", what, e.cfg.SkipForm)
+	}
+}
+
 func elemText(space, local string, req, children bool) string {
 	inner := ""
 	if req {
@@ -1134,6 +1174,8 @@ func (e *exec) initiatorScript(written []byte) ([]byte, bool) {
 		e.hdrOpp++
 		if e.cfg.SkipHeader > 0 && e.hdrOpp == e.cfg.SkipHeader+1 {
 			e.c.Count("peer_skipped_header", 1)
+			e.peerHdrMissing = true
+			sb.WriteString(e.notAHeader())
 		} else {
 			sb.WriteString(e.peerHeader())
 		}
@@ -1267,6 +1309,11 @@ func (e *exec) receiverScript(written []byte) ([]byte, bool) {
 		if e.cfg.SkipHeader > 0 && e.hdrOpp == e.cfg.SkipHeader && e.nPeerHdr > 0 {
 			e.c.Count("peer_skipped_header", 1)
 			e.cfg.SkipHeader = -1
+			e.peerHdrMissing = true
+			if h := e.notAHeader(); h != "" {
+				e.logf("peer> %s   [in place of a header]", h)
+				return []byte(h), false
+			}
 		} else {
 			e.peerHdrSince = true
 			h := e.peerHeader()
